@@ -12,6 +12,12 @@ import (
 	"github.com/postalsys/muti-metroo/internal/verifrt/simrt"
 )
 
+// Force, when a harness sets it for the current run, may supply the bytes of
+// a read itself: edge-case draws (all ones, all zeros, ...) that a uniform
+// source produces with negligible probability but that are legal outcomes.
+// It returns false to leave the read to the deterministic stream.
+var Force func(b []byte) bool
+
 type reader struct{}
 
 func (reader) Read(b []byte) (int, error) {
@@ -24,6 +30,9 @@ func (reader) Read(b []byte) (int, error) {
 	w, ok := simrt.NextRand()
 	if !ok {
 		return crand.Read(b)
+	}
+	if f := Force; f != nil && f(b) {
+		return len(b), nil
 	}
 	x := w
 	for i := range b {
